@@ -36,6 +36,7 @@ type RunOpts struct {
 	Decode    bool   // C14: independent decoder after every flush
 	RefCount  bool   // C15: item reference counting
 	Lazy      bool   // C19: value bytes never read by key-only ops
+	RefsQuiescent bool // C18: no version stays pinned once visits/iterators/snapshots are gone
 	Plan      *FaultPlan
 	NoFinal   bool // skip the end-of-case comparison (engines that do their own)
 	KeepData  bool // log the payload of every write (C03)
@@ -1115,6 +1116,18 @@ func (w *World) cheapChecks() {
 	}
 	if w.opt.Probe {
 		w.probe()
+	}
+	if w.opt.RefsQuiescent && len(w.snaps) == 0 && w.inVisit == 0 && !w.orig.closed {
+		// With no snapshot, visit or iterator alive, the only reference on a
+		// collection's current version is the collection's own.
+		for _, name := range w.orig.m.Names() {
+			if c := w.orig.st.GetCollection(name); c != nil {
+				if r := c.VerifRootRefs(); r != 1 {
+					w.failf("version-still-pinned", "collection %q: the current version has %d references although no snapshot, visit or iterator is alive (a finished or failed call kept its pin)", name, r)
+				}
+			}
+		}
+		w.ev["refs_quiescent_checked"]++
 	}
 }
 
